@@ -55,6 +55,18 @@ def expand_names(ids, rule, shape):
             return '#[serde(rename_all(deserialize = "%s"))] struct S { %s }' % (rule, " ".join("%s: u8," % i for i in group))
         if shape == "de_only_variant":
             return '#[serde(rename_all(deserialize = "%s"))] enum E { %s }' % (rule, " ".join("%s," % i for i in group))
+        # the convention in serde's spelling, among other entries of the same list (flags without a value, entries
+        # ts-rs has no use for) and in a list of its own next to another one
+        if shape == "serde_mixed_field":
+            return '#[serde(deny_unknown_fields, rename_all = "%s", default)] struct S { %s }' % (rule, " ".join("%s: u8," % i for i in group))
+        if shape == "serde_mixed_variant":
+            return '#[serde(deny_unknown_fields, rename_all = "%s", bound = "")] enum E { %s }' % (rule, " ".join("%s," % i for i in group))
+        if shape == "serde_split_field":
+            return '#[serde(deny_unknown_fields)] #[serde(rename_all = "%s")] #[serde(default)] struct S { %s }' % (rule, " ".join("%s: u8," % i for i in group))
+        if shape == "serde_split_variant":
+            return '#[serde(tag = "t")] #[serde(rename_all = "%s")] enum E { %s }' % (rule, " ".join("%s {}," % i for i in group))
+        if shape == "serde_flag_struct_variant":
+            return 'enum E { #[serde(skip_deserializing, rename_all = "%s")] V { %s } }' % (rule, " ".join("%s: u8," % i for i in group))
         if shape == "renamed_field":             # an explicit rename is used verbatim, whatever the container's convention
             return '#[ts(rename_all = "%s")] struct S { %s }' % (rule, " ".join('#[ts(rename = "%s")] f%d: u8,' % (i, k) for k, i in enumerate(group)))
         if shape == "renamed_variant":
@@ -66,12 +78,12 @@ def expand_names(ids, rule, shape):
         raise ToolError(shape)
 
     def names_of(tokens, n):
-        names = (macrodrv.tag_values(tokens) if shape == "tagged_struct_variant" else
-                 macrodrv.unit_variant_names(tokens) if shape in ("variant", "raw_variant", "renamed_variant", "de_only_variant") else macrodrv.field_names(tokens))
+        names = (macrodrv.tag_values(tokens) if shape in ("tagged_struct_variant", "serde_split_variant") else
+                 macrodrv.unit_variant_names(tokens) if shape in ("variant", "raw_variant", "renamed_variant", "de_only_variant", "serde_mixed_variant") else macrodrv.field_names(tokens))
         if len(names) == 2 * n and names[:n] == names[n:]:
             names = names[:n]        # inline() and inline_flattened() carry the same list
         if len(names) != n:
-            raise ToolError("cannot read %d names from the expansion (%d found): %s" % (n, len(names), tokens[:300]))
+            raise Unreadable("cannot read %d names from the expansion (%d found): %s" % (n, len(names), tokens[:300]))
         return names
 
     groups = list(batches(ids, 80))
@@ -121,12 +133,32 @@ def expand_names_seq(ids, rule, first):
     return out
 
 
+class Unreadable(ToolError):
+    """the generated code no longer has the shape the name extraction knows"""
+
+
+UNREADABLE = set()
+
+
 def run(tier):
     return run_core(tier, PROP)[0]
 
 
+def expand_names_or_skip(ids, rule, shape):
+    """the secondary carriers: a carrier whose generated code cannot be read is left out (and reported), the
+    two primary carriers (field, variant) must be readable"""
+    try:
+        return expand_names(ids, rule, shape)
+    except Unreadable as e:
+        if shape not in UNREADABLE:
+            log("carrier %s left out: %s" % (shape, str(e)[:200]))
+        UNREADABLE.add(shape)
+        return {}
+
+
 def run_core(tier, prop):
     t0 = time.time()
+    UNREADABLE.clear()
     v = vlib.Verdicts(prop)
     r = vlib.run_tlc("MC_Inflection", "MC_Inflection_%s.cfg" % tier, workers=12, timeout=1800, metatag="c09p")
     if r.violated:
@@ -160,10 +192,12 @@ def run_core(tier, prop):
             for i, n in expand_names(ids, rule, pos).items():
                 ts[(pos, rule, i)] = n
         for shape in ("rename_all_fields", "variant_rename_all"):
-            for i, n in expand_names(short, rule, shape).items():
+            for i, n in expand_names_or_skip(short, rule, shape).items():
                 extra[(shape, rule, i)] = n
-        for shape, pos in (("raw_field", "field"), ("raw_variant", "variant"), ("tagged_struct_variant", "variant")):
-            for i, n in expand_names([x for x in short if x != "_"], rule, shape).items():
+        for shape, pos in (("raw_field", "field"), ("raw_variant", "variant"), ("tagged_struct_variant", "variant"),
+                           ("serde_mixed_field", "field"), ("serde_mixed_variant", "variant"), ("serde_split_field", "field"),
+                           ("serde_split_variant", "variant"), ("serde_flag_struct_variant", "field")):
+            for i, n in expand_names_or_skip([x for x in short if x != "_"], rule, shape).items():
                 rawx[(shape, rule, i, pos)] = n
     # both roles in one macro process, in both orders (identifiers on which nothing panics)
     calm = [i for i in short if all(ts[(pos, rule, i)] != ["PANIC"] for pos in ("field", "variant") for rule in RULES)]
@@ -177,10 +211,10 @@ def run_core(tier, prop):
     plain = [i for i in short if '"' not in i and "\\" not in i]
     for rule in RULES:
         for shape, pos in (("renamed_field", "field"), ("renamed_variant", "variant")):
-            for i, n in expand_names(plain, rule, shape).items():
+            for i, n in expand_names_or_skip(plain, rule, shape).items():
                 verb[(shape, rule, i, pos)] = n
         for shape, pos in (("de_only_field", "field"), ("de_only_variant", "variant")):
-            for i, n in expand_names([x for x in plain if x != "_"], rule, shape).items():
+            for i, n in expand_names_or_skip([x for x in plain if x != "_"], rule, shape).items():
                 verb[(shape, rule, i, pos)] = n
     # ADJUDICATE
     recs, meta = [], []
@@ -223,6 +257,8 @@ def run_core(tier, prop):
     if drift and not v.violations:
         k = drift[0]
         v.note("drift: %d names differ from the transcription but satisfy the property, e.g. %s" % (len(drift), json.dumps(recs[k - 1])))
+    if UNREADABLE:
+        v.note("carriers left out because the generated code has another shape than the name extraction knows: %s" % ", ".join(sorted(UNREADABLE)))
     rc = v.finish()
     excluded = sum(1 for rec in recs if rec["serde"] == ["PANIC"])
     samples = [{"position": m[0], "carrier": m[3], "rule": m[1], "ident": m[2], "ts": to_str_safe(rec["ts"]), "serde": to_str_safe(rec["serde"])}
@@ -231,7 +267,7 @@ def run_core(tier, prop):
            "traces_validated_against_impl": len(recs), "samples": samples,
            "identifiers": len(ids), "records_adjudicated": len(recs), "drift": len(drift),
            "outside_domain_serde_itself_panics": excluded, "serde_derive_version": serde_version,
-           "exhaustive": True,
+           "exhaustive": True, "carriers_left_out_unreadable": sorted(UNREADABLE),
            "rule": "every legal Rust identifier of length <= %d over {ASCII lower, ASCII upper, digit, _, non-ASCII lower, non-ASCII upper, sharp s} x 8 rules x {struct field, enum variant}, plus struct-variant fields under rename_all_fields and under a variant's own rename_all for the short identifiers; the short identifiers also with field and variant carriers derived one after the other in one macro process, in both orders" % (4 if tier == "quick" else 5)}
     if prop == PROP:
         vlib.write_evidence(prop, tier, "model_checking", cov,
